@@ -82,7 +82,9 @@ type Module struct {
 	Identities []Identity `json:"identities,omitempty"`
 	Top        []*Node    `json:"top"`
 	Extra      string     `json:"extra,omitempty"`
-	root       *Node
+	// SubIdents > 0: the last SubIdents identities are written in the submodule <name>-sub, which the module includes
+	SubIdents int `json:"subIdents,omitempty"`
+	root      *Node
 }
 
 // Root returns the synthetic root node whose children are the top-level nodes.
@@ -103,14 +105,14 @@ func b2s(b bool) string {
 // Yang renders the module.
 func (m *Module) Yang() string {
 	var b strings.Builder
-	fmt.Fprintf(&b, "module %s {\n namespace \"urn:%s\";\n prefix %s;\n revision 2020-01-01;\n", m.Name, m.Name, m.Name)
-	for _, id := range m.Identities {
-		if id.Base == "" {
-			fmt.Fprintf(&b, " identity %s;\n", id.Name)
-		} else {
-			fmt.Fprintf(&b, " identity %s { base %s; }\n", id.Name, id.Base)
-		}
+	fmt.Fprintf(&b, "module %s {\n namespace \"urn:%s\";\n prefix %s;\n", m.Name, m.Name, m.Name)
+	inMain := m.Identities
+	if m.SubIdents > 0 && m.SubIdents <= len(m.Identities) {
+		fmt.Fprintf(&b, " include %s-sub;\n", m.Name)
+		inMain = m.Identities[:len(m.Identities)-m.SubIdents]
 	}
+	b.WriteString(" revision 2020-01-01;\n")
+	writeIdentities(&b, inMain)
 	if m.Extra != "" {
 		b.WriteString(" " + m.Extra + "\n")
 	}
@@ -122,6 +124,28 @@ func (m *Module) Yang() string {
 	}
 	b.WriteString("}\n")
 	return b.String()
+}
+
+func writeIdentities(b *strings.Builder, ids []Identity) {
+	for _, id := range ids {
+		if id.Base == "" {
+			fmt.Fprintf(b, " identity %s;\n", id.Name)
+		} else {
+			fmt.Fprintf(b, " identity %s { base %s; }\n", id.Name, id.Base)
+		}
+	}
+}
+
+// Files returns the texts the module's include statements refer to (file name -> text).
+func (m *Module) Files() map[string]string {
+	if m.SubIdents <= 0 || m.SubIdents > len(m.Identities) {
+		return nil
+	}
+	var b strings.Builder
+	fmt.Fprintf(&b, "submodule %s-sub {\n belongs-to %s { prefix %s; }\n", m.Name, m.Name, m.Name)
+	writeIdentities(&b, m.Identities[len(m.Identities)-m.SubIdents:])
+	b.WriteString("}\n")
+	return map[string]string{m.Name + "-sub.yang": b.String()}
 }
 
 // yangAugments writes, parents before their descendants, one augment statement per node that has children marked Aug.
